@@ -242,9 +242,9 @@ impl Engine for C19 {
     }
     fn runs(&self, quick: bool) -> u64 {
         if quick {
-            12_000
+            100_000
         } else {
-            600_000
+            3_000_000
         }
     }
 
